@@ -67,6 +67,13 @@ type Ctx struct {
 	side          *os.File
 	caseCounter   int64
 	maxViolPerKey int
+	resume        string
+	out           string
+	lastCkpt      time.Time
+	curID         string
+	curSince      time.Time
+	Stall         time.Duration // when > 0: a case running longer than this is reported and ends the worker
+	StallKey      string
 }
 
 var (
@@ -80,6 +87,7 @@ var (
 	fOnly    = flag.String("only", "", "evaluate only this case id")
 	fBudget  = flag.Duration("budget", 0, "internal wall-clock budget (0 = none)")
 	fFlavour = flag.String("flavour", "default", "build flavour label")
+	fResume  = flag.String("resume", "", "skip all cases up to and including this case id (restart after a crash)")
 )
 
 // Check is a property check body.
@@ -103,22 +111,65 @@ func Main(checks map[string]Check) {
 			c.side = f
 		}
 	}
+	c.resume, c.out = *fResume, *fOut
 	chk(c)
-	c.res.Distinct += int64(len(c.distinct))
-	c.res.WallS = time.Since(c.start).Seconds()
-	b, err := json.Marshal(&c.res)
+	c.Finish()
+}
+
+// Finish writes the result file (also used for checkpoints and emergency exits).
+func (c *Ctx) Finish() {
+	c.mu.Lock()
+	res := c.res
+	res.Distinct += int64(len(c.distinct))
+	res.WallS = time.Since(c.start).Seconds()
+	b, err := json.Marshal(&res)
+	c.mu.Unlock()
 	if err != nil {
 		fmt.Fprintln(os.Stderr, "worker: marshal:", err)
 		os.Exit(2)
 	}
-	if *fOut == "" {
+	if c.out == "" {
 		os.Stdout.Write(b)
 		return
 	}
-	if err := os.WriteFile(*fOut, b, 0o644); err != nil {
+	tmp := c.out + ".tmp"
+	if err := os.WriteFile(tmp, b, 0o644); err != nil {
 		fmt.Fprintln(os.Stderr, "worker:", err)
 		os.Exit(2)
 	}
+	os.Rename(tmp, c.out)
+}
+
+// Resuming reports whether the case must be skipped because the worker was restarted
+// after a crash and has not yet passed the case it died in.
+func (c *Ctx) Resuming(id string) bool {
+	if c.resume == "" {
+		return false
+	}
+	if id == c.resume {
+		c.resume = ""
+	}
+	return true
+}
+
+// Watchdog reports a case that does not terminate: the violation is recorded, the result
+// written and the process ended (the stuck goroutine cannot be stopped any other way).
+func (c *Ctx) Watchdog(limit time.Duration, key string) {
+	c.Stall, c.StallKey = limit, key
+	go func() {
+		for {
+			time.Sleep(time.Second)
+			c.mu.Lock()
+			id, since := c.curID, c.curSince
+			c.mu.Unlock()
+			if id != "" && time.Since(since) > limit {
+				c.Violation(key, id, fmt.Sprintf("decoding did not terminate within %v", limit), nil)
+				c.NotExhaustive()
+				c.Finish()
+				os.Exit(0)
+			}
+		}
+	}()
 }
 
 func (c *Ctx) Quick() bool { return c.Tier != "thorough" }
@@ -154,6 +205,20 @@ func (c *Ctx) Current(id string) {
 	if c.side != nil {
 		c.side.Truncate(0)
 		c.side.WriteAt([]byte(id), 0)
+	}
+	if c.Stall > 0 {
+		c.mu.Lock()
+		c.curID, c.curSince = id, time.Now()
+		c.mu.Unlock()
+	}
+}
+
+// Checkpoint writes the result file if the last checkpoint is older than 2 s (so that a
+// crashing worker leaves its counts behind).
+func (c *Ctx) Checkpoint() {
+	if time.Since(c.lastCkpt) > 2*time.Second {
+		c.lastCkpt = time.Now()
+		c.Finish()
 	}
 }
 
